@@ -17,8 +17,12 @@ EXTENDS NodePut, TLC, Json, IOUtils, SequencesExt
 CONSTANTS SeqLen, Families
 
 BOOL == {TRUE, FALSE}
-Pays == [sigs : BOOL, self : BOOL, close : BOOL, fresh : BOOL, chain : BOOL, addr : BOOL]
-OkPay == [sigs |-> TRUE, self |-> TRUE, close |-> TRUE, fresh |-> TRUE, chain |-> TRUE, addr |-> TRUE]
+\* forge: HOW a quote fails to be "authentically signed by its claimed node" when sigs = FALSE --
+\*   "sig": it carries the claimed node's key and a signature made with another key;
+\*   "key": it is a self-consistent quote of ANOTHER node (own key, own valid signature) listed under the claimed node
+Pays == {p \in [sigs : BOOL, self : BOOL, close : BOOL, fresh : BOOL, chain : BOOL, addr : BOOL, forge : {"sig", "key"}] :
+            p.sigs => p.forge = "sig"}
+OkPay == [sigs |-> TRUE, self |-> TRUE, close |-> TRUE, fresh |-> TRUE, chain |-> TRUE, addr |-> TRUE, forge |-> "sig"]
 NoPay == "none"
 
 D0 == [path |-> "client", kind |-> "Chunk", keyOk |-> TRUE, heldIdx |-> FALSE, pay |-> NoPay, parse |-> "ok",
@@ -56,10 +60,13 @@ AltBaseCases == {<<Setup(k), [Probe(k) EXCEPT !.path = pa, !.parse = "altbase", 
                                               !.pay = IF k \in PaidKinds THEN OkPay ELSE NoPay]>> :
                     k \in {"Register", "RegisterWithPayment"}, pa \in {"client", "repl"}}
 \* a transaction record that mixes transactions of the address owner with a VALIDLY signed transaction of another
-\* owner (id 4: "belonging to another address"); the driver lists the owner's own transactions first
+\* owner (ids 4, 5: "belonging to another address"); the driver lists the owner's own transactions first
 ForeignTxCases == {<<held, [Probe("Transaction") EXCEPT !.path = "repl", !.txs = t]>> :
                       held \in BOOL, t \in {{[id |-> 2, ok |-> TRUE], [id |-> 4, ok |-> FALSE]}, {[id |-> 4, ok |-> FALSE]},
-                                            {[id |-> 2, ok |-> TRUE], [id |-> 3, ok |-> FALSE], [id |-> 4, ok |-> FALSE]}}}
+                                            {[id |-> 2, ok |-> TRUE], [id |-> 3, ok |-> FALSE], [id |-> 4, ok |-> FALSE]},
+                                            \* several transactions of ONE foreign owner in a row (ids 4 and 5)
+                                            {[id |-> 4, ok |-> FALSE], [id |-> 5, ok |-> FALSE]},
+                                            {[id |-> 2, ok |-> TRUE], [id |-> 4, ok |-> FALSE], [id |-> 5, ok |-> FALSE]}}}
 SingleScenarios == {IF c[1] THEN <<Setup(c[2].kind), c[2]>> ELSE <<c[2]>> : c \in C03Cases \cup ParseCases \cup ForeignTxCases}
               \cup {c \in VictimCases : Feasible0(c[2])}
               \cup {c \in CrossCases : Feasible0(c[2]) /\ Base(c[1].kind) # Base(c[2].kind)}
@@ -114,7 +121,7 @@ ToJsonD(d) == [path |-> d.path, kind |-> d.kind, key |-> IF d.keyOk THEN "derive
                parse |-> IF d.parse \in {"victim", "collide", "altbase"} THEN "ok" ELSE d.parse, collide |-> d.parse = "collide",
                base |-> IF d.parse = "altbase" THEN "alt" ELSE "std",
                pay |-> d.pay, c |-> d.pad.c, sig |-> d.pad.sig, content |-> d.pad.content,
-               txs |-> SetToSeq({[id |-> t.id, sig |-> IF t.ok \/ t.id = 4 THEN "ok" ELSE "bad", owner |-> IF t.id = 4 THEN "other" ELSE "same"] : t \in d.txs}),
+               txs |-> SetToSeq({[id |-> t.id, sig |-> IF t.ok \/ t.id \in {4, 5} THEN "ok" ELSE "bad", owner |-> IF t.id \in {4, 5} THEN "other" ELSE "same"] : t \in d.txs}),
                ops |-> SetToSeq({[id |-> o.id, sig |-> IF o.ok THEN "ok" ELSE "bad"] : o \in d.ops})]
 ASSUME IF "CASES" \in DOMAIN IOEnv
        THEN ndJsonSerialize(IOEnv.CASES, SetToSeq({[i \in 1..Len(s) |-> ToJsonD(s[i])] : s \in SingleScenarios}))
